@@ -223,7 +223,7 @@ func TestKeysetRejects(t *testing.T) {
 			}
 			dup := false
 			for _, o := range members { // key material must be unique inside the keyset
-				if bytes.Equal(o.Key, c.Key) || (c.MacKey != nil && bytes.Equal(o.MacKey, c.MacKey)) {
+				if bytes.Equal(o.Key, c.Key) || (c.MacKey != nil && o.MacKey != nil && aeadcase.SameMacKey(o.MacKey, c.MacKey)) {
 					dup = true
 				}
 			}
@@ -293,7 +293,7 @@ func TestKeysetRejects(t *testing.T) {
 			sib := c.Sibling(rt)
 			foreign := true
 			for _, o := range members {
-				if bytes.Equal(o.Key, sib.Key) || (sib.MacKey != nil && bytes.Equal(o.MacKey, sib.MacKey)) {
+				if bytes.Equal(o.Key, sib.Key) || (sib.MacKey != nil && o.MacKey != nil && aeadcase.SameMacKey(o.MacKey, sib.MacKey)) {
 					foreign = false // the drawn sibling coincides with a member: not a foreign key
 				}
 			}
